@@ -5,13 +5,26 @@ import copy
 import time
 
 
+_HEAD = [None]      # for "...raises" oracles: the exception type wanted
+
+
+def _same(v, oracle):
+    if v['oracle'] != oracle:
+        return False
+    if _HEAD[0] is not None and oracle.endswith('raises'):
+        # "program-raises: IndexError ..." is not "program-raises:
+        # POSKeyError ...": a shrunk case must fail the same way
+        return v['detail'].split(':')[0].strip() == _HEAD[0]
+    return True
+
+
 def _fails(mod, case, oracle):
     from . import runner
     try:
         res = runner.run_one(mod, case)
     except BaseException:       # noqa: B902 -- a crash is not "the same"
         return False
-    return any(v['oracle'] == oracle for v in res.get('violations', ()))
+    return any(_same(v, oracle) for v in res.get('violations', ()))
 
 
 def _get(case, path):
@@ -82,7 +95,7 @@ def minimise_schedule(mod, case, oracle, deadline):
     res = _run(mod, case)
     if not res or not res.get('schedule'):
         return case
-    if not any(v['oracle'] == oracle for v in res.get('violations', ())):
+    if not any(_same(v, oracle) for v in res.get('violations', ())):
         return case
     sched = list(res['schedule'])
     c2 = dict(case, schedule=sched)
@@ -131,6 +144,8 @@ def minimise_schedule(mod, case, oracle, deadline):
 
 
 def shrink(mod, case, violation, deadline):
+    _HEAD[0] = violation.get('detail', '').split(':')[0].strip() \
+        if violation['oracle'].endswith('raises') else None
     case = _shrink(mod, case, violation, deadline)
     try:
         return minimise_schedule(mod, case, violation['oracle'],
